@@ -190,6 +190,37 @@ def h_parallel(entry: int, excl: int, sel: int, f: int, g: int, par: int):
     assert not p0 and not p1 and same
 
 
+def _parallel_conflict_case(entry, kind, par, didx):
+    """a conflict (file without strategy / document key without key strategy) in a job that exists on both sides: the parallel run reports
+    exactly what the sequential run reports, and leaves the same tree"""
+    outs, trees = [], []
+    for parallel in (False, [2, True][par]):
+        with SL.Scratch() as sc:
+            # kind 0: conflicting file f, kind 1: conflicting document key, kind 2: both; job1 only in the source (cloned meanwhile)
+            src, dst = SL.build(sc.root, 0b0111, 4 if kind in (0, 2) else 1, 0, 2, 5 if kind in (1, 2) else 4, 0)
+            kw = dict(strategy=None, doc_sync=SL.doc_sync(didx), recursive=True, check_schema=False, parallel=parallel)
+            outs.append(SL.outcome(_call(entry, src, dst, **kw)))
+            trees.append({k: v for k, v in SL.snap(dst.path).items() if not k.startswith("workspace/%s" % src.open_job(SL.SPS[1]).id)})
+    problems = []
+    if outs[0] != outs[1]:
+        problems.append(("parallel outcome differs from sequential", outs[1], outs[0]))
+    if outs[0] == outs[1] and trees[0] != trees[1]:
+        problems.append(("parallel run leaves a different tree for the conflicting job",))
+    if outs[0] == "ok":
+        problems.append(("the sequential run did not report the conflict: scenario broken", outs))
+    return problems
+
+
+def h_parallel_conflict(entry: int, kind: int, par: int, didx: int):
+    assert entry in (0, 2) and 0 <= kind <= 2 and 0 <= par <= 1 and 0 <= didx <= 0
+    fresh_path()
+    entry, kind, par, didx = pick([0, 2], 0 if entry == 0 else 1), ci(kind, 0, 2), ci(par, 0, 1), ci(didx, 0, 0)
+    with nt():
+        problems = _parallel_conflict_case(entry, kind, par, didx)
+    reached()
+    assert not problems
+
+
 def _snap_meta(root):
     """{relpath: ('dir', mode) | ('file', bytes, mode, mtime_ns) | ('link', target)} -- lstat based, so permission and time changes are visible"""
     out = {}
@@ -279,7 +310,7 @@ def h_dry_opts__reach(entry: int, skind: int, dkind: int, nested: bool, follow: 
 
 # ---------------------------------------------------------------------------------------- exclude inside whole-tree copies
 import re as _re
-XPATS = ["secret", r".*\.log$", "sub"]
+XPATS = ["secret", r".*\.log$", "sub", r".*\.json$", "signac_"]    # the last two also match signac's own file names
 
 
 def _exclude_tree_case(entry, pat, newjob, recursive, aslist):
@@ -313,6 +344,8 @@ def _exclude_tree_case(entry, pat, newjob, recursive, aslist):
             if k in bd or not k.startswith(pre):
                 continue
             rel = k[len(pre):]
+            if rel in ("signac_statepoint.json", "signac_job_document.json"):
+                continue      # signac's own two files at the root of a job are not data files: the job must arrive with its state point, documents follow doc_sync
             if any(_re.match(pattern, part) for part in rel.split("/")):
                 problems.append(("an entry matching the exclude pattern was created", rel, pattern))
         # and the files that do NOT match (and do not lie below an excluded directory) arrive
@@ -341,22 +374,29 @@ def h_exclude_tree(entry: int, pat: int, newjob: bool, recursive: bool, aslist: 
     assert not problems
 
 
-def _dry_uninit_case(entry, with_doc, recursive, sub):
+def _dry_uninit_case(entry, with_doc, recursive, sub, half=False):
     """job-level dry run into a destination job that is not initialised yet: completes like the real run and creates nothing"""
     problems = []
     with SL.Scratch() as sc1, SL.Scratch() as sc2:
         pairs = []
         for sc in (sc1, sc2):
             src, dst = SL.build(sc.root, 1, 1, 1 if sub else 0, 0, 1 if with_doc else 0, 0)
+            if half:
+                # the destination directory exists (copied by hand / interrupted transfer) but has no state point file
+                os.makedirs(os.path.join(dst.workspace, src.open_job(SL.SPS[0]).id))
+                src, dst = signac.get_project(src.path, search=False), signac.get_project(dst.path, search=False)
             pairs.append((src, dst))
         (src, dst), (src2, dst2) = pairs
         bs, bd = SL.snap(src.path, True), SL.snap(dst.path, True)
         kw = dict(recursive=recursive)
         import io, contextlib
         with contextlib.redirect_stdout(io.StringIO()):
-            out_dry = SL.outcome(_call(1 if entry == 0 else 3, src, dst, dry_run=True, **kw))
-        out_real = SL.outcome(_call(1 if entry == 0 else 3, src2, dst2, **kw))
-        if out_dry != out_real:
+            e_ = [1, 3, 0, 2][entry]
+            if e_ in (0, 2):
+                kw["check_schema"] = False
+            out_dry = SL.outcome(_call(e_, src, dst, dry_run=True, **dict(kw)))
+        out_real = SL.outcome(_call(e_, src2, dst2, **dict(kw)))
+        if out_dry != out_real and not (half and isinstance(out_real, tuple)):
             problems.append(("dry run outcome differs from the real run", out_dry, out_real))
         if SL.snap(src.path, True) != bs:
             problems.append(("dry run changed the source",))
@@ -366,12 +406,14 @@ def _dry_uninit_case(entry, with_doc, recursive, sub):
     return problems
 
 
-def h_dry_uninit(entry: int, with_doc: bool, recursive: bool, sub: bool):
-    assert 0 <= entry <= 1
+def h_dry_uninit(entry: int, with_doc: bool, recursive: bool, sub: bool, half: bool):
+    assert 0 <= entry <= 3
     fresh_path()
-    entry, with_doc, recursive, sub = ci(entry, 0, 1), cb(with_doc), cb(recursive), cb(sub)
+    entry, with_doc, recursive, sub, half = ci(entry, 0, 3), cb(with_doc), cb(recursive), cb(sub), cb(half)
+    if entry >= 2 and not half:
+        discard("project-level entry points clone a missing job (covered by h_dry)")
     with nt():
-        problems = _dry_uninit_case(entry, with_doc, recursive, sub)
+        problems = _dry_uninit_case(entry, with_doc, recursive, sub, half)
     reached()
     assert not problems
 
@@ -475,6 +517,7 @@ HARNESSES = [
     dict(name="h_deep", timeout=(400, 900), unblock=True),
     dict(name="h_select", timeout=(600, 1500), unblock=True),
     dict(name="h_parallel", timeout=(400, 900), unblock=True),
+    dict(name="h_parallel_conflict", timeout=(300, 600), unblock=True),
     dict(name="h_exclude_tree", timeout=(300, 600), unblock=True),
     dict(name="h_dry_uninit", timeout=(300, 600), unblock=True),
     dict(name="h_deep_repeat", timeout=(300, 600), unblock=True),
